@@ -43,6 +43,20 @@ PROPS = {
         ],
         'assumptions': [],
     },
+    'C19': {
+        'design_ref': 'DESIGN.md section 6.4',
+        'verus_units': [
+            {'template': 'units/c19_lsp.rs.in', 'modes': [[]], 'canary': True},
+        ],
+        'kani': [],
+        'not_covered': [
+            'call sites in src/lsp/backend.rs that pass spans to span_to_range / positions to position_to_offset',
+        ],
+        'assumptions': [
+            'A2: documents have fewer than 2^32 characters (LSP positions are u32) and fewer than usize::MAX bytes',
+            'A3: span starts are < usize::MAX (`start + 1` in span_to_range); spans are offsets into in-memory strings',
+        ],
+    },
 }
 
 GLOBAL_ASSUMPTIONS = [
